@@ -24,7 +24,7 @@ TmCases  == [fam : {"client"}, ty : {"tm"}, kind : Kinds, st : States \cup {"exp
 TssCases == [fam : {"client"}, ty : {"tss"}, kind : Kinds, st : States, f : {"valid", "wrongcons", "nilcons", "badaddr", "nopubkey"}]
 BscCases == [fam : {"client"}, ty : {"bsc"}, kind : Kinds, st : {"fresh", "sametype", "expired"},
              epoch : {"0", "1", "4"}, height : {"zero", "epochmult", "other"}, extra : {"short", "novals", "vals", "odd"},
-             sig : {"good", "garbage"}, shape : {"ok", "longbloom", "longnonce", "nodiff", "wrongcons", "novalidators"}]
+             sig : {"good", "garbage"}, shape : {"ok", "longbloom", "longnonce", "nodiff", "wrongcons", "novalidators", "hugechainid"}]
 EthCases == [fam : {"client"}, ty : {"eth"}, kind : Kinds, st : {"fresh", "sametype", "expired"},
              f : {"valid", "nodiff", "gasover", "wrongcons", "nilcons", "longbloom", "bigextra", "nobasefee", "zeroheight"}]
 
